@@ -5,6 +5,10 @@ import TsVerif.C14.Props
 #print axioms TsVerif.C14.refToken_rules
 #print axioms TsVerif.C14.lexScan_sound
 #print axioms TsVerif.C14.lexScan_flat
+#print axioms TsVerif.C14.lexScan_vs_refToken
+#print axioms TsVerif.C14.lexScan_none_iff
+#print axioms TsVerif.C14.lexScan_eq_refToken_iff
+#print axioms TsVerif.C14.lexScan_eq_refToken_of_longest
 #print axioms TsVerif.C14.refTokenize_progress
 #print axioms TsVerif.C14.tokenize_increasing
 #print axioms TsVerif.C14.keyword_whole_word
